@@ -286,30 +286,32 @@ Fixpoint all2 (f : pv -> pv -> bool) (a b : list pv) : bool :=
   | _, _ => false
   end.
 
+(* list elements: `not dict_eq(a, b) if isinstance(a, dict) else (a != b)` *)
+Definition elem_eq (deq : list (Z * pv) -> list (Z * pv) -> bool) (x y : pv) : bool :=
+  match x, y with
+  | PDict _ _ a, PDict _ _ b => deq a b
+  | PDict _ _ _, _ => false
+  | _, _ => py_eq x y
+  end.
+
+(* one key of the union: d1.get(k) against d2.get(k) *)
+Definition val_eq (deq : list (Z * pv) -> list (Z * pv) -> bool) (o1 o2 : option pv) : bool :=
+  if is_none o1 then is_none o2 else
+  if is_none o2 then false else
+  match o1, o2 with
+  | Some (PDict _ _ a), Some (PDict _ _ b) => deq a b
+  | Some (PDict _ _ _), _ => false
+  | Some (PList la), Some (PList lb) => all2 (elem_eq deq) la lb
+  | Some (PList _), _ => false
+  | Some (PStr s), Some (PBytes b) => bytes_eqb s b       (* d1[k] != s.decode() *)
+  | Some x, Some y => py_eq x y
+  | _, _ => false
+  end.
+
 Fixpoint dict_eq (d : nat) (f1 f2 : list (Z * pv)) {struct d} : bool :=
   match d with
   | O => false
-  | S d' =>
-    forallb (fun k =>
-      match lookup k f1, lookup k f2 with
-      | o1, o2 =>
-        if is_none o1 then is_none o2 else
-        if is_none o2 then false else
-        match o1, o2 with
-        | Some (PDict _ _ a), Some (PDict _ _ b) => dict_eq d' a b
-        | Some (PDict _ _ _), _ => false
-        | Some (PList la), Some (PList lb) =>
-            all2 (fun x y => match x, y with
-                             | PDict _ _ a, PDict _ _ b => dict_eq d' a b
-                             | PDict _ _ _, _ => false
-                             | _, _ => py_eq x y
-                             end) la lb
-        | Some (PList _), _ => false
-        | Some (PStr s), Some (PBytes b) => bytes_eqb s b       (* d1[k] != s.decode() *)
-        | Some x, Some y => py_eq x y
-        | _, _ => false
-        end
-      end) (keys_union f1 f2)
+  | S d' => forallb (fun k => val_eq (dict_eq d') (lookup k f1) (lookup k f2)) (keys_union f1 f2)
   end.
 
 (* ThriftObject.__eq__ on two objects *)
